@@ -94,7 +94,7 @@ func classifyH265(s *h26xps.H265SPS, st h26xps.Stats) {
 func TestH265SPSRoundTrip(t *testing.T) {
 	t.Parallel()
 	vps, pps := h26xps.MinimalH265VPS(), h26xps.MinimalH265PPS()
-	evid.Checks(5000, 120000)
+	evid.Checks(20000, 300000)
 	rapid.Check(t, func(t *rapid.T) {
 		s := h26xps.GenH265SPS().Draw(t, "sps")
 		o := genSDPOpts(t)
@@ -166,7 +166,7 @@ func vpsElements(v *h26xps.H265VPS) string {
 // structures) is compared as a diagnostic only.
 func TestH265VPSRoundTrip(t *testing.T) {
 	t.Parallel()
-	evid.Checks(5000, 120000)
+	evid.Checks(15000, 250000)
 	rapid.Check(t, func(t *rapid.T) {
 		v := h26xps.GenH265VPS().Draw(t, "vps")
 		nal, st := v.EncodeStats()
